@@ -827,21 +827,59 @@ def reaper_constants():
     return int(pu), int(cu)
 
 
+class GatedWork:
+    """a second work B in the same executor whose handle_events coroutine stays suspended (its plugin awaits a slow
+    future) until the script releases it; never inactive, nothing to select"""
+    def __init__(self):
+        self.gate = None
+        self.calls = 0
+        self.shut = False
+
+    async def handle_events(self, readables, writables):
+        self.calls += 1
+        await self.gate
+        return False
+
+    async def get_events(self):
+        return {}
+
+    def is_inactive(self):
+        return False
+
+    def shutdown(self):
+        self.shut = True
+
+
 def run_reaper_threadless(case):
-    """the REAL Threadless._run_forever / _cleanup_inactive / _cleanup around one simulated work; only _run_once
-    (selector + task dispatch, the business of C05/C10) is replaced by the scripted iteration."""
+    """the REAL Threadless._run_forever / _run_once (task creation, asyncio.wait, teardown -> _cleanup) /
+    _cleanup_inactive / _cleanup on a real asyncio loop, around the simulated work A and, when the case says so, a
+    second work B whose handle_events task stays unfinished across many iterations.  Only _selected_events (the
+    selector) is replaced by the script."""
     import asyncio, threading
     from proxy.core.work.threadless import Threadless
     d = RelayDriver(case, external_shutdown=True)
     iters = case['iters']
-    WID = 4242
+    busy = [tuple(x) for x in case.get('b_busy', [])]      # [start, end): B's task is started at `start`, released at `end`
+    WID, BID = 4242, 4343
     log = []
-    st = dict(i=0)
+    st = dict(i=0, cur=None, inflight=False)
+    hres = []
+    B = GatedWork()
 
-    class OneWork(Threadless):
+    class LoopProxy:
+        def __init__(self, loop):
+            self._loop = loop
+        def create_task(self, coro):
+            return self._loop.create_task(coro)
+        def stop(self):
+            pass
+
+    class TwoWorks(Threadless):
+        _lp = None
+
         @property
         def loop(self):
-            return None
+            return self._lp
 
         def receive_from_work_queue(self):
             return False
@@ -852,24 +890,46 @@ def run_reaper_threadless(case):
         def work(self, *args):
             pass
 
+        async def _selected_events(self):
+            i = st['i'] - 1
+            it = iters[i]
+            out = {}
+            for (b0, b1) in busy:
+                if b1 == i and B.gate is not None and not B.gate.done():
+                    B.gate.set_result(None)                 # B's slow future resolves now
+            for (b0, b1) in busy:
+                if b0 == i and BID in self.works and not any(getattr(t, '_work_id', None) == BID for t in self.unfinished):
+                    B.gate = asyncio.get_event_loop().create_future()
+                    out[BID] = ([], [])
+            if it.get('ev') is not None and WID in self.works:
+                r, w = d.pre_step(it['ev'])
+                st['cur']['ev_index'] = len(d.executed) - 1
+                st['inflight'] = True
+                names, _ = d.S.interest()
+                socks = d.S.socks()
+                rr = [socks[n].fd for n in r if n in socks and 'r' in names.get(n, '') and not socks[n].closed]
+                ww = [socks[n].fd for n in w if n in socks and 'w' in names.get(n, '') and not socks[n].closed]
+                out[WID] = (rr, ww)
+            return out, True
+
         async def _run_once(self):
             i = st['i']
             if i >= len(iters):
                 return True
             st['i'] += 1
-            it = iters[i]
-            cur = dict(swept=False, fate=0, ev_index=None)
+            cur = dict(swept=False, fate=0, ev_index=None, unfinished=False)
+            st['cur'] = cur
             log.append(cur)
-            if it.get('ev') is not None and WID in self.works:
-                r, w = d.pre_step(it['ev'])
-                cur['ev_index'] = len(d.executed) - 1
-                x = d.S.step(r, w)
-                res = d.post_step(0 if x == 'ok' else 1 if x == 'teardown' else 2)
+            r = await super()._run_once()
+            if st['inflight']:
+                st['inflight'] = False
+                res = hres[-1] if hres else 0
+                d.post_step(res)
                 if res:
-                    self._cleanup(WID)
                     cur['fate'] = 1
-            d.clock.t = it['t'] / TICK
-            return False
+            cur['unfinished'] = len(self.unfinished) > 0
+            d.clock.t = iters[i]['t'] / TICK
+            return r
 
         def _cleanup_inactive(self):
             cur = log[-1]
@@ -879,23 +939,42 @@ def run_reaper_threadless(case):
             if before and WID not in self.works:
                 cur['fate'] = 2
 
+    orig_he = d.h.handle_events
+    async def handle_events(readables, writables):
+        try:
+            r = await orig_he(readables, writables)
+        except BaseException:
+            hres.append(2)
+            raise
+        hres.append(1 if r else 0)
+        return r
+    d.h.handle_events = handle_events
+    loop = asyncio.new_event_loop()
     try:
-        tl = OneWork('1', None, d.S.flags)
+        tl = TwoWorks('1', None, d.S.flags)
+        tl._lp = LoopProxy(loop)
         tl.running = threading.Event()
         tl.works[WID] = d.h
-        run_sync(tl._run_forever())
-        # a fate, once reached, stays
+        if busy:
+            tl.works[BID] = B
+        loop.run_until_complete(tl._run_forever())
+        for t in list(tl.unfinished):
+            t.cancel()
+        if tl.unfinished:
+            loop.run_until_complete(asyncio.gather(*tl.unfinished, return_exceptions=True))
         f = 0
-        for cur in log:
+        for cur in log:                      # a fate, once reached, stays
             f = cur['fate'] or f
             cur['fate'] = f
-        wait_timeout, cleanup_timeout = tl.wait_timeout, tl.cleanup_inactive_timeout
     except BaseException:
         d.S.close()
         raise
+    finally:
+        loop.close()
     out = d.finish()
     out['log'] = log
     out['alive'] = WID in tl.works
+    out['b_calls'] = B.calls
     return out
 
 
@@ -1039,9 +1118,9 @@ def coq_reaper_case(case, out):
         for it, cur in zip(case['iters'], out['log']):
             k = cur['ev_index']
             e = 'None' if k is None else '(Some (%s))' % coq_event(out['events'][k], out['oracles'][k], t0)
-            its.append('(%s, %d)' % (e, it['t'] - t0))
+            its.append('I %s %d %s' % (e, it['t'] - t0, C.coq_bool(cur['unfinished'])))
         for it in case['iters'][len(out['log']):]:
-            its.append('(None, %d)' % (it['t'] - t0))
+            its.append('I None %d false' % (it['t'] - t0))
         pu, cu = reaper_constants()
         exp = ['(%s, %d)' % (C.coq_bool(c['swept']), c['fate']) for c in out['log']]
         return 'CReaperTL (mkTC %d %d) %s %s %s %s %s %s' % (pu, cu, cfg, coq_Z(t0), C.coq_list(its), C.coq_list(exp),
@@ -1053,7 +1132,7 @@ def coq_reaper_case(case, out):
             e = '(Some (%s))' % coq_event(out['events'][i], out['oracles'][i], t0)
         else:
             e = 'None'
-        its.append('(%s, %d)' % (e, it['t'] - t0))
+        its.append('I %s %d false' % (e, it['t'] - t0))
     sel = C.coq_list(('None' if x is None else '(Some %s)' % coq_outcome(x)) for x in list(case.get('sel', [])) + ['pipe'])
     exp = [str(f) for f in out['fates']]
     return 'CReaperTH %s %s %s %s %s %s %s' % (cfg, coq_Z(t0), sel, C.coq_list(its), C.coq_list(exp),
